@@ -108,6 +108,8 @@ fn c02_cases(cx: &Ctx, p: &'static Params) -> Vec<VCase> {
             out.extend(forge::honest_cases(p, &skc, &hpk, *mode, msg, ctx, if primary { 2 } else { 0 }));
         }
     }
+    // D7: the sparse-coset stress vectors completed to signatures FIPS 204 accepts (DESIGN 3.2 / 3.1a)
+    out.extend(crate::e7::load_witnesses(p).into_iter().map(|(_, c)| c));
     out
 }
 
